@@ -59,13 +59,14 @@ theorem tie_sendStrings : sendStrings =
      "File segment %v extends past end of stream",
      "Block end %v comes before start of file segment %v"] := rfl
 
-/-- `parseManifestStream` after fixes 4f92334, b1a09e4: Model `pkgParseStream` / `pkgFileToks` (non-wrapping range test, canonical-path test for non-empty tokens). -/
+/-- `parseManifestStream` after fixes 4f92334, b1a09e4, 2fef6b9: Model `pkgParseStream` / `pkgFileToks` (non-wrapping range test, canonical-path test for non-empty tokens). -/
 theorem tie_parseStreamConds : parseStreamConds = 
     ["if m.StreamName != \".\" && !strings.HasPrefix(m.StreamName, \"./\")",
      "for i < len(tokens)",
      "if !blockdigest.IsBlockLocator(tokens[i])",
      "if len(m.Blocks) == 0",
      "if err != nil",
+     "if streamoffset+uint64(bl.Size) < streamoffset",
      "if len(fileTokens) == 0",
      "if err != nil",
      "if pft.SegPos > streamoffset || pft.SegLen > streamoffset-pft.SegPos",
